@@ -168,7 +168,8 @@ def run(tier):
         jobs.append((s, False, None))
         jobs.append((s, True, None))
         if len(jobs) % 5 == 0 and not s["subs"]:
-            jobs.append((s, True, r.choice([{"numeric_roots": True, "numeric_eps": 1e-12}, {"numeric_croots": True}])))
+            jobs.append((s, True, r.choice([{"numeric_roots": True, "numeric_eps": 1e-12}, {"numeric_croots": True},
+                                            {"numeric_roots": True, "numeric_eps": 1e-30}])))
     tasks = [{"fn": "harness.tasks.solve:solve_system",
               "args": {"A": s["A"], "v": s["v"], "consts": s["consts"], "force_cyclic": fc, "nvals": s["nvals"],
                        "subs": s["subs"], "numeric": num}} for s, fc, num in jobs]
@@ -193,6 +194,7 @@ def run(tier):
         chk.count("solver:" + res.get("solver", "?"))
         chk.count("kind:" + s["kind"])
         for comp in res["components"]:
+            comp["_numeric"] = num
             if not comp.get("ok"):
                 chk.count("refused-solve:" + comp["error"]["etype"])
                 continue
@@ -235,6 +237,10 @@ def run(tier):
                 tag, sv = tag_val
                 want = Fr(row[comp["i"]])
                 exact = bool(comp.get("exact"))
+                if not exact and n > 8:
+                    # rounded roots: the deviation grows with n and with the condition of the fit; the property only bounds it
+                    # by "what the requested precision allows", so rounded results are judged on the first iterates only
+                    break
                 if tag == "undefined-limit":
                     # 0/0 at the parameter point of a symbolic entry; sv is the limit of the closed form there
                     if Fr(sv) == want:
@@ -255,7 +261,18 @@ def run(tier):
                             z = complex(float(Fr(sv)))
                         else:
                             z = complex(sv.replace("*I", "j").replace(" ", "")) if "I" in sv else complex(float(sv))
-                        tol = (1e-25 if exact else 1e-6) * max(1.0, abs(float(want)))
+                        tol = (1e-25 if exact else 1e-5) * max(1.0, abs(float(want)))
+                        numopt = comp.get("_numeric") or {}
+                        if not exact and numopt.get("numeric_eps") == 1e-30 and n <= 5:
+                            # the requested root precision bounds the deviation of the first iterates (ten orders of margin)
+                            import mpmath
+                            mpmath.mp.dps = 60
+                            zz = mpmath.mpf(Fr(sv).numerator) / mpmath.mpf(Fr(sv).denominator) if tag == "q" else None
+                            if zz is not None:
+                                ww = mpmath.mpf(want.numerator) / mpmath.mpf(want.denominator)
+                                if abs(zz - ww) > mpmath.mpf(10) ** -20 * max(1, abs(ww)):
+                                    bad = (n, sv, H.fr_str(want), "rounded-result-far-beyond-the-requested-precision(1e-30)")
+                                    break
                         if abs(z - float(want)) > max(tol, 1e-12 * max(1.0, abs(float(want)))):
                             bad = (n, sv, H.fr_str(want), "wrong-value-" + tag + ("" if exact else "-rounded-beyond-tolerance"))
                             break
